@@ -180,7 +180,10 @@ func RunCase(c Case, p string) (res common.Result) {
 			return
 		}
 		run.CrashNow()
-		fs = run.PowerLoss(ph.Tear)
+		fs = run.Crash(ph.Tear)
+		if ph.Tear.Mode == "kill" {
+			cls["phase-ended-by-process-kill"] = true
+		}
 		t.gen++
 		depth++
 	}
@@ -223,7 +226,10 @@ func RunCase(c Case, p string) (res common.Result) {
 			if !volatile && ti > 0 {
 				break // nothing un-synced: every tear yields the same image
 			}
-			img := run.PowerLoss(tear)
+			img := run.Crash(tear)
+			if tear.Mode == "kill" {
+				cls["process-kill-then-usability-then-power-loss"] = true
+			}
 			t3 := t2.clone()
 			t3.gen++
 			e3 := &runEnv{seg: c.SegSize, fs: img}
